@@ -138,6 +138,9 @@ def mk_search_manager(it, ctx, *, session=True):
         def pyvc_len(self, it2):
             return Sym(self.n, 'int')
 
+        def pyvc_truth(self, it2):
+            return self.n > 0
+
         def __repr__(self):
             return f'<{self.name}>'
     visible, locked = Results('visible', nv), Results('locked', nl)
@@ -241,8 +244,73 @@ def prove_answerers(src_root, kind, ex: Explorer):
     ex.run(path, f'answer-{kind}')
 
 
+def prove_fanout(src_root, ex: Explorer):
+    """send_messages_to_children, loop contract (arbitrary child of an arbitrary children list): the messages are handed to the child's
+    connection with queue_messages - one independent send task per message (C14.queue_messages.*) - and the fan-out never suspends: the
+    children list cannot change under the loop, a slow child delays nobody and a failing child cannot stop the others."""
+    def path(ctx: Ctx):
+        it = mk(src_root, ctx)
+        queued, awaited = [], []
+        conn = Stub('child connection', queue_messages=Recorder('queue_messages', fn=lambda it2, a, k: queued.append(tuple(a))),
+                    send_message=Recorder('send_message', fn=lambda it2, a, k: awaited.append(a[0]), is_async=True),
+                    queue_message=Recorder('queue_message', fn=lambda it2, a, k: queued.append(tuple(a))))
+        child = Stub('child', connection=conn)
+
+        class Children:
+            def pyvc_iter(self, it2, loop):
+                raise Unsupported('iteration over the children without a contract')
+        children = Children()
+        dn = new(it, DN, 'DistributedNetwork', children=children)
+        m1, m2 = Stub('message 1'), Stub('message 2')
+        yields = []
+        it.aio.on_yield = lambda it2, label: yields.append(label)
+        seen = []
+
+        def loop(it2, node, env):
+            src = it2.eval(node.iter, env)
+            it2.assign(node.target, child, env)
+            it2.exec_block(node.body, env)
+            seen.append(src)
+        it.loop_specs[(f'{DN}:DistributedNetwork.send_messages_to_children', 0)] = loop
+        run(it, it.getattr(dn, 'send_messages_to_children'), m1, m2)
+        flat = [m for q in queued for m in q]
+        ctx.prove('C14.fanout.iterates-children', len(seen) == 1 and seen[0] is children)
+        ctx.prove('C14.fanout.child-gets-all', flat == [m1, m2] and not awaited, 'each child must be handed every message once, through its send queue')
+        ctx.prove('C14.fanout.never-suspends', not yields and not awaited,
+                  f'the fan-out suspends ({yields}) while it iterates over the live children list: a slow or failing child delays or cuts off the others')
+    ex.run(path, 'fanout')
+
+
+def prove_child_admission_site(src_root, ex: Explorer):
+    """_on_peer_connection_initialized: only a distributed connection that the PEER opened is considered as a child.  A connection this
+    client requested goes to a potential parent: it must never enter the children (it would be fed every forwarded search and could never
+    become the parent).  Every distributed connection is recorded as a distributed peer."""
+    def path(ctx: Ctx):
+        it = mk(src_root, ctx)
+        requested = ctx.choose(2, 'requested-by-us') == 1
+        distributed = ctx.choose(2, 'distributed') == 1
+        checked = []
+        it.hooks[f'{DN}:DistributedNetwork._check_if_new_child'] = lambda it2, f, a, k: A.SimpleAwaitable(it2.aio, 'check', lambda it3: checked.append(a[1]))
+        typ = cls(it, CONN, 'PeerConnectionType')
+        ctype = it.class_attr(typ, 'DISTRIBUTED') if distributed else it.class_attr(typ, 'PEER')
+        conn = Stub('connection', connection_type=ctype, username='bob')
+        dn = new(it, DN, 'DistributedNetwork', distributed_peers=[])
+        run(it, it.getattr(dn, '_on_peer_connection_initialized'), Stub('event', connection=conn, requested=requested))
+        peers = dn.attrs['distributed_peers']
+        if not distributed:
+            ctx.prove('C14.children.site[other-connection]', not checked and not peers)
+            return
+        ok_peer = len(peers) == 1 and isinstance(peers[0], Obj) and peers[0].attrs.get('connection') is conn
+        ctx.prove('C14.children.site[records-peer]', ok_peer)
+        if requested:
+            ctx.prove('C14.children.site[requested]', not checked, 'a connection this client requested (to a potential parent) is considered as a child')
+        else:
+            ctx.prove('C14.children.site[incoming]', ok_peer and checked == [peers[0]], 'an incoming distributed connection must be considered as a child')
+    ex.run(path, 'child-admission-site')
+
+
 def items(src_root, tier):
-    return [('forward', k) for k in CARRIERS] + [('queue', None), ('reply', None)] + [('answer', k) for k in ANSWERERS]
+    return [('forward', k) for k in CARRIERS] + [('queue', None), ('reply', None), ('fanout', None), ('site', None)] + [('answer', k) for k in ANSWERERS]
 
 
 def run_item(src_root, item, tier):
@@ -256,6 +324,10 @@ def run_item(src_root, item, tier):
             prove_queue_messages(src_root, ex)
         elif kind == 'reply':
             prove_reply(src_root, ex)
+        elif kind == 'fanout':
+            prove_fanout(src_root, ex)
+        elif kind == 'site':
+            prove_child_admission_site(src_root, ex)
         elif kind == 'answer':
             prove_answerers(src_root, arg, ex)
     except Unsupported as e:
@@ -264,6 +336,6 @@ def run_item(src_root, item, tier):
     res.bounded.append({'obligations': '*[bounded]', 'bound': 'children lists of length 0..3', 'counted_as_proved': False})
     res.functions.update([f'{DN}:DistributedNetwork.{c["handler"]}' for c in CARRIERS.values()])
     res.functions.update([f'{SM}:SearchManager.{c["handler"]}' for c in ANSWERERS.values()])
-    res.functions.update([f'{DN}:DistributedNetwork.send_messages_to_children', f'{CONN}:DataConnection.queue_messages',
+    res.functions.update([f'{DN}:DistributedNetwork.send_messages_to_children', f'{DN}:DistributedNetwork._on_peer_connection_initialized', f'{CONN}:DataConnection.queue_messages',
                           f'{CONN}:DataConnection.queue_message', f'{SM}:SearchManager._query_shares_and_reply'])
     return res
